@@ -112,6 +112,21 @@ CLAIMS["C06"] = dict(
     design_ref="DESIGN.md §3 C06",
 )
 
+CLAIMS["C05"] = dict(
+    technique="interval abstract interpretation of the symbolically evaluated LUT encoders (incl. NaN/±inf runs); exact integer relations between the table literals; symbolic curve references",
+    category="other",
+    text=("LUT-1 is a proof by intervals for every f32 input: on each path of the clamp the value reaching to_bits is non-negative, non-NaN "
+          "and within [min_float, 1-eps], so the unchecked index (bits-min_bits)>>shift is below the length of the table literal at all 5 call "
+          "sites (each with its own min-float constant and table), no cast truncates, and NaN/-inf/+inf reach codes 0/0/MAX. Table data "
+          "relations, computed by the checker's own integer arithmetic from the literals: the encoder is non-decreasing within and across all "
+          "buckets and ends at 0/MAX, decode-table -> encoder reproduces every 8-/16-bit code, decode tables run 0..1 strictly increasing, equal "
+          "the standard's curve at i/MAX within 5e-7 and the f32 table is the rounded f64 table; f64 entry points use the same fast path. "
+          "The generic float curves equal the standards' definitions with a knee step < 1e-6; Rgb/Luma(/Alpha) into_linear, from_linear, "
+          "into_encoding, from_encoding map each channel of the same field through the transfer function. Does not decide the < 0.6-code "
+          "error of the fitted tables over all 2^32 inputs."),
+    design_ref="DESIGN.md §3 C05",
+)
+
 NOT_YET = "check under construction (see DESIGN.md §7 build order); will be claimed when its rule is armed"
 NA = {}
 
